@@ -3,7 +3,7 @@
    list / arithmetic programs, gate application as programs over TTN/Store.v), tied to /repo by
    harness/props/c08.py after every sub-operation of every gate. *)
 From Coq Require Import List Arith Bool ZArith Permutation.
-From PTN Require Import TTN.Store TTN.StoreProofs TEBD.Trotter TEBD.TrotterProofs.
+From PTN Require Import TTN.Store TTN.StoreProofs TTN.Inv TTN.InvSplit TTN.CanonTree TEBD.Trotter TEBD.TrotterProofs TEBD.GateTree.
 Import ListNotations.
 
 (* ---- 1. exponentiate_splitting ------------------------------------------------------------------- *)
@@ -195,6 +195,160 @@ Theorem C08_bond_bounded : forall (p : Trunc.Select.params) (s : list QArith_bas
   1 <= length (fst (Trunc.Select.select p s)) <= m /\ length (fst (Trunc.Select.select p s)) <= length s.
 Proof. exact bond_bounded. Qed.
 Print Assumptions C08_bond_bounded.
+
+(* ---- 6. the two-site gate on a well-formed store (TEBD/GateTree.v, over the store invariant wfb) ------- *)
+(* acceptance and restoration together: on two neighbouring nodes of a well-formed store, with a fresh
+   temporary identifier and a gate tensor whose shape is (open dimensions of node1 ++ node2) twice, no
+   sub-operation raises; the result is well-formed, it is the same tree (same identifiers, same parents,
+   children up to order), the root is where it was, the temporary identifier is gone from both
+   dictionaries, and every node other than the pair has exactly its old record and its old tensor *)
+Theorem C08_two_site_gate_total : forall (contr : id) (s : store) (a b : id) (g : tgate) (na nb : node),
+  wfb s = true -> aget a (nodes s) = Some na -> aget b (nodes s) = Some nb -> In b (neighbouring_nodes na) ->
+  aget contr (nodes s) = None ->
+  t_shape g = map (wdim s) (open_of na (tens s a) ++ open_of nb (tens s b)) ++
+              map (wdim s) (open_of na (tens s a) ++ open_of nb (tens s b)) ->
+  exists s1 s2 s3, two_site_stages contr s a b g = Some (s1, s2, s3) /\
+    wfb s3 = true /\ same_tree (nodes s) (nodes s3) /\ root s3 = root s /\
+    aget contr (nodes s3) = None /\ aget contr (tensors s3) = None /\
+    (forall k, k <> a -> k <> b -> aget k (nodes s3) = aget k (nodes s) /\ aget k (tensors s3) = aget k (tensors s)).
+Proof. exact two_site_gate_total. Qed.
+Print Assumptions C08_two_site_gate_total.
+
+(* the same restoration for ANY accepted gate application (whatever the shape / SVD kind): acceptance
+   already implies that the two nodes are neighbours *)
+Theorem C08_two_site_gate_same_tree : forall (contr : id) (s : store) (a b : id) (g : tgate) (s1 s2 s3 : store) (na : node),
+  wfb s = true -> aget a (nodes s) = Some na -> aget contr (nodes s) = None ->
+  two_site_stages contr s a b g = Some (s1, s2, s3) ->
+  In b (neighbouring_nodes na) /\ wfb s3 = true /\
+  same_tree (nodes s) (nodes s3) /\ root s3 = root s /\
+  aget contr (nodes s3) = None /\ aget contr (tensors s3) = None /\
+  (forall k, k <> a -> k <> b -> aget k (nodes s3) = aget k (nodes s) /\ aget k (tensors s3) = aget k (tensors s)).
+Proof. exact two_site_gate_same_tree. Qed.
+Print Assumptions C08_two_site_gate_same_tree.
+
+(* the exact child order of the restored pair: the lower node gets its old child list back, in the upper
+   node the partner is moved to the front and the other children keep their order *)
+Theorem C08_two_site_gate_children : forall (contr : id) (s : store) (a b : id) (g : tgate) (s1 s2 s3 : store) (na : node),
+  wfb s = true -> aget a (nodes s) = Some na -> aget contr (nodes s) = None ->
+  two_site_stages contr s a b g = Some (s1, s2, s3) ->
+  exists p c pn0 cn0 pn3 cn3,
+    ((p = a /\ c = b) \/ (p = b /\ c = a)) /\
+    aget p (nodes s) = Some pn0 /\ aget c (nodes s) = Some cn0 /\ parent cn0 = Some p /\ In c (children pn0) /\
+    aget p (nodes s3) = Some pn3 /\ aget c (nodes s3) = Some cn3 /\
+    parent pn3 = parent pn0 /\ children pn3 = c :: remove_first c (children pn0) /\
+    parent cn3 = Some p /\ children cn3 = children cn0.
+Proof. exact two_site_gate_children. Qed.
+Print Assumptions C08_two_site_gate_children.
+
+(* the three sub-operations never raise under their structural preconditions, and keep the invariant *)
+Theorem C08_contract_accepts : forall (s : store) (a b new : id) (na nb : node),
+  wfb s = true -> aget a (nodes s) = Some na -> aget b (nodes s) = Some nb -> In b (neighbouring_nodes na) ->
+  ~ In new (akeys (nodes s)) ->
+  exists s', contract_nodes s a b new = Some s' /\ wfb s' = true.
+Proof. exact contract_accepts. Qed.
+Print Assumptions C08_contract_accepts.
+
+Theorem C08_absorb_accepts : forall (s : store) (a : id) (gshape : list nat) (na : node),
+  wfb s = true -> aget a (nodes s) = Some na ->
+  gshape = map (wdim s) (open_of na (tens s a)) ++ map (wdim s) (open_of na (tens s a)) ->
+  exists s', absorb_open s a gshape = Some s' /\ wfb s' = true.
+Proof. exact one_site_gate_succeeds. Qed.
+Print Assumptions C08_absorb_accepts.
+
+Theorem C08_absorb_preserves_wfb : forall (s : store) (n : id) (gshape : list nat) (s' : store),
+  wfb s = true -> absorb_open s n gshape = Some s' -> wfb s' = true.
+Proof. exact absorb_preserves_wfb. Qed.
+Print Assumptions C08_absorb_preserves_wfb.
+
+Theorem C08_split_accepts : forall (s : store) (n : id) (nd0 : node) (o i : legspec) (oid iid : id) (kind : nat) (m : mode) (rb : nat)
+    (ol il : list nat),
+  wfb s = true -> aget n (nodes s) = Some nd0 ->
+  find_leg_values nd0 o = Some ol -> find_leg_values nd0 i = Some il ->
+  Permutation (ol ++ il) (seq 0 (nlegs nd0)) ->
+  oid <> iid -> (kind = 0 -> m = Keep -> il <> []) ->
+  sp_asserts o i = true ->
+  leg_ok nd0 o -> leg_ok nd0 i -> ids_ok s n oid iid ->
+  NoDup (find_all_neighbour_ids o ++ find_all_neighbour_ids i) ->
+  exists s', split_nodes s n o i oid iid kind m rb = Some s' /\ wfb s' = true.
+Proof. exact split_accepts. Qed.
+Print Assumptions C08_split_accepts.
+
+(* the diagram the gate folds into the network.  pt, ct: the logical tensors of the upper / lower node
+   of the pair, nt their contraction over the bond (np.tensordot); nn the contracted node; G: nt in the
+   contracted node's leg order with the gate atom `ga` attached — its input axes on the old open wires of
+   node1 then node2 (now summed), its fresh output wires in their place.  The SVD kernel receives G
+   transposed to (legs of the first specification ++ legs of the second); the two new tensors are the
+   two fresh atoms of that kernel call over the fresh bond wire; node1's open legs are the gate's first
+   output wires in order, node2's the remaining ones *)
+Theorem C08_two_site_gate_diagram : forall (contr : id) (s : store) (a b : id) (g : tgate) (s1 s2 s3 : store) (na : node),
+  wfb s = true -> aget a (nodes s) = Some na -> aget contr (nodes s) = None ->
+  two_site_stages contr s a b g = Some (s1, s2, s3) ->
+  exists nb u v p c pn0 cn0 pt ct ax nt nn lu lv,
+    aget b (nodes s) = Some nb /\ lbc_nodes a na b nb = Some (u, v) /\
+    ((p = a /\ c = b) \/ (p = b /\ c = a)) /\
+    aget p (nodes s) = Some pn0 /\ aget c (nodes s) = Some cn0 /\ parent cn0 = Some p /\
+    logical s p = Some pt /\ logical s c = Some ct /\ neighbour_index pn0 c = Some ax /\
+    s_tensordot pt ct ax 0 = Some nt /\
+    aget contr (nodes s1) = Some nn /\ aget contr (tensors s1) = Some nt /\
+    find_leg_values nn u = Some lu /\ find_leg_values nn v = Some lv /\
+    Permutation (lu ++ lv) (seq 0 (nlegs nn)) /\
+    let ga := next_atom s in
+    let opa := open_of na (tens s a) in
+    let opb := open_of nb (tens s b) in
+    let outw := seq (next_wire s) (nopen na + nopen nb) in
+    let bw := next_wire s + (nopen na + nopen nb) in
+    let G := gate_folded nn nt ga outw in
+    skipn (nvirt nn) (laxes nn nt) = opa ++ opb /\
+    atab s3 = atab s ++ [(ga, outw ++ opa ++ opb); (S ga, permute 0 lu (axes G) ++ [bw]); (S (S ga), bw :: permute 0 lv (axes G))] /\
+    defs s3 = defs s ++ [{| kq := S ga; kr := S (S ga); kbond := bw; kinput := s_transpose (lu ++ lv) G;
+                            kkind := t_kind g; kmode := match t_kind g with 0 => Some Reduced | _ => None end |}] /\
+    aget a (tensors s3) = Some {| axes := permute 0 lu (axes G) ++ [bw]; atoms := [S ga]; bnd := [] |} /\
+    aget b (tensors s3) = Some {| axes := bw :: permute 0 lv (axes G); atoms := [S (S ga)]; bnd := [] |} /\
+    next_atom s3 = S (S (S ga)) /\ next_wire s3 = S bw /\
+    (exists bd, dims s3 = (dims s ++ combine outw (firstn (nopen na + nopen nb) (t_shape g))) ++ [(bw, bd)]) /\
+    exists na' nb', aget a (nodes s3) = Some na' /\ aget b (nodes s3) = Some nb' /\
+      open_of na' (tens s3 a) = seq (next_wire s) (nopen na) /\
+      open_of nb' (tens s3 b) = seq (next_wire s + nopen na) (nopen nb).
+Proof. exact two_site_gate_diagram. Qed.
+Print Assumptions C08_two_site_gate_diagram.
+
+(* ---- 7. whole steps ---------------------------------------------------------------------------------- *)
+(* every accepted gate application / step / sequence of steps keeps the invariant, the tree and the root *)
+Theorem C08_apply_gate_preserves_wfb : forall (contr : id) (s : store) (g : tgate) (s' : store),
+  wfb s = true -> aget contr (nodes s) = None -> apply_gate contr s g = Some s' ->
+  wfb s' = true /\ aget contr (nodes s') = None /\ same_tree (nodes s) (nodes s') /\ root s' = root s.
+Proof. exact apply_gate_preserves_wfb. Qed.
+Print Assumptions C08_apply_gate_preserves_wfb.
+
+Theorem C08_tebd_step_preserves_wfb : forall (contr : id) (gs : list tgate) (s s' : store),
+  wfb s = true -> aget contr (nodes s) = None -> tebd_step contr s gs = Some s' ->
+  wfb s' = true /\ aget contr (nodes s') = None /\ same_tree (nodes s) (nodes s') /\ root s' = root s.
+Proof. exact tebd_step_preserves_wfb. Qed.
+Print Assumptions C08_tebd_step_preserves_wfb.
+
+Theorem C08_tebd_steps_preserve_wfb : forall (contr : id) (gs : list tgate) (n : nat) (s s' : store),
+  wfb s = true -> aget contr (nodes s) = None -> tebd_steps contr n s gs = Some s' ->
+  wfb s' = true /\ aget contr (nodes s') = None /\ same_tree (nodes s) (nodes s') /\ root s' = root s.
+Proof. exact tebd_steps_preserve_wfb. Qed.
+Print Assumptions C08_tebd_steps_preserve_wfb.
+
+(* acceptance of a whole step: every list of gates that fit the tree (one node, or two neighbouring
+   nodes; tensor shape = their open dimensions twice) is executed without an exception; the open
+   dimensions of every node are kept, so the same list fits again *)
+Theorem C08_tebd_step_accepts : forall (contr : id) (gs : list tgate) (s : store),
+  wfb s = true -> aget contr (nodes s) = None -> Forall (gate_fits s) gs ->
+  exists s', tebd_step contr s gs = Some s' /\ wfb s' = true /\ aget contr (nodes s') = None /\
+             same_tree (nodes s) (nodes s') /\ root s' = root s /\ forall k, odims s' k = odims s k.
+Proof. exact tebd_step_accepts_wfb. Qed.
+Print Assumptions C08_tebd_step_accepts.
+
+Example C08_example_gates_fit :
+  let s := fst (run empty_store [AddRoot 0 [2; 3]; AddChild 1 [3; 2; 2] 0 0 1; AddChild 2 [2; 2] 1 1 1]) in
+  Forall (gate_fits s) [ {| t_ids := [1; 0]; t_shape := [2; 2; 2; 2]; t_kind := 1; t_bond := 0 |};
+                         {| t_ids := [1; 2]; t_shape := [2; 2; 2; 2]; t_kind := 1; t_bond := 0 |};
+                         {| t_ids := [2]; t_shape := [2; 2]; t_kind := 1; t_bond := 0 |} ].
+Proof. exact gate_fits_example. Qed.
+Print Assumptions C08_example_gates_fit.
 
 (* ---- non-vacuity ------------------------------------------------------------------------------------- *)
 (* a splitting with keys given child-first, a factor, SWAPs before and after, via from_lists *)
